@@ -1,6 +1,7 @@
 import AasVerif.Model.SdkTreeWire
+import AasVerif.Model.SdkCtor
 namespace AasVerif.Drive.C29
-open AasVerif AasVerif.Sdk AasVerif.SdkDescend AasVerif.SdkDescend.Wire
+open AasVerif AasVerif.Sdk AasVerif.SdkDescend AasVerif.SdkDescend.Wire AasVerif.SdkCtor
 
 def decFlag : String → Option Bool
   | "0" => some false
@@ -13,6 +14,55 @@ def decKind : String → Option Kind
   | "transform" => some .transform
   | "transform_with_context" => some .transformWithContext
   | _ => none
+
+def decDispatcher : String → Option Dispatcher
+  | "AbstractVisitor" => some .abstractVisitor
+  | "AbstractVisitorWithContext" => some .abstractVisitorWithContext
+  | "PassThroughVisitor" => some .passThroughVisitor
+  | "PassThroughVisitorWithContext" => some .passThroughVisitorWithContext
+  | "AbstractTransformer" => some .abstractTransformer
+  | "AbstractTransformerWithContext" => some .abstractTransformerWithContext
+  | "TransformerWithDefault" => some .transformerWithDefault
+  | "TransformerWithDefaultAndContext" => some .transformerWithDefaultAndContext
+  | _ => none
+
+/-- `N` | `L` | `E,<enum>,<literal>` -/
+def decDefault : List String → Option (Option DefaultCode)
+  | ["N"] => some none
+  | ["L"] => some (some .emptyList)
+  | ["E", e, l] => do
+    let e ← Text.dec e
+    let l ← Text.dec l
+    some (some (.enumLiteral e l))
+  | _ => none
+
+/-- `S,<class>` | `A,<property>,<argument>,<default>` -/
+def decStmt (s : String) : Option Stmt :=
+  match s.splitOn "," with
+  | ["S", c] => do
+    let c ← Text.dec c
+    some (.callSuper c)
+  | "A" :: p :: a :: d => do
+    let p ← Text.dec p
+    let a ← Text.dec a
+    let d ← decDefault d
+    some (.assign p a d)
+  | _ => none
+
+def decStmts (s : String) : Option (List Stmt) :=
+  if s == "[]" then some [] else (s.splitOn ";").mapM decStmt
+
+def showDefaultCode : DefaultCode → String
+  | .emptyList => "L"
+  | .enumLiteral e l => s!"E,{Text.enc e},{Text.enc l}"
+
+def showPyStmt : PyStmt → String
+  | .superInit c => s!"super,{Text.enc c}"
+  | .set p a => s!"set,{Text.enc p},{Text.enc a}"
+  | .setOrDefault p a c => s!"setd,{Text.enc p},{Text.enc a},{showDefaultCode c}"
+
+def showPyStmts (ss : List PyStmt) : String :=
+  if ss.isEmpty then "[]" else ";".intercalate (ss.map showPyStmt)
 
 def showBlock : Except Err (List Node) → String
   | .ok ns => showNodes ns
@@ -30,6 +80,9 @@ def showBlock : Except Err (List Node) → String
 * `dispatch <kind> <mm> <cls> <mro>` → called visitor/transformer method (meta-model identifier) or `none`
 * `over <ty> <val>`             → `no-accessor` or the yields of `over_X_or_empty()`
 * `ordefault <default> <val>`   → value of `X_or_default()`
+* `ctor <stmts>`                → the statements of the generated `__init__`
+* `construct <default> <val>`   → what the property holds after the generated assignment for the argument value
+* `visitors <class> <mm>`       → the methods the generated visitor / transformer class declares (meta-model identifiers)
 -/
 def handle : List String → Option String
   | ["descendable", t] => do
@@ -81,6 +134,19 @@ def handle : List String → Option String
     let d ← decVal d
     let v ← decVal v
     some (showVal (orDefault d v))
+  | ["ctor", ss] => do
+    let ss ← decStmts ss
+    some (showPyStmts (renderBody ss))
+  | ["construct", d, v] => do
+    let d ← decDefault (d.splitOn ",")
+    let v ← decVal v
+    match execStmt (renderStmt (.assign [] [] d)) v with
+    | some (_, r) => some (showVal r)
+    | none => some "nothing-set"
+  | ["visitors", d, mm] => do
+    let d ← decDispatcher d
+    let mm ← decMM mm
+    some (Text.encList (declaredMethods mm d))
   | _ => none
 
 end AasVerif.Drive.C29
